@@ -493,6 +493,14 @@ func TestReplay(t *testing.T) {
 		enumerateKinds(t, vi.Meta["node"])
 		return
 	}
+	if vi.Meta["edits"] != "" {
+		var v px.Ver
+		fmt.Sscanf(vi.Meta["version"], "%d.%d", &v.Major, &v.Minor)
+		if m := replayTokenEdit(src, v, vi.Meta["edits"]); m != "" {
+			harness.Failf(t, "token-edit", src, vi.Meta, "%s", m)
+		}
+		return
+	}
 	if vi.Meta["site"] == "" {
 		t.Skip("nothing to replay in this file")
 	}
